@@ -362,6 +362,7 @@ func (e *Ev) callStatic(fn *types.Func, recv *Term, args []Term, n *ast.CallExpr
 		for _, o := range e.st.allocs {
 			e.define(smtNot(app(allocPred, o)))
 		}
+		e.notInHeaps(func(c string) string { return smtNot(app(allocPred, c)) })
 		for _, c := range as {
 			for _, h := range strings.Fields(c.Text) {
 				name, srt := e.allocHeap(h, calleeBV)
@@ -567,6 +568,16 @@ func (e *Ev) inlineCall(fn *types.Func, fd *ast.FuncDecl, b *Block, recv *Term, 
 			e.st.heaps[k] = v
 		}
 	}
+	// on the continuing path one of the callee's (non-panicking) exits was taken
+	if len(exits) > 0 {
+		var cs []string
+		for _, x := range exits {
+			cs = append(cs, x.cond)
+		}
+		if d := smtOr(cs...); d != "true" && len(e.qvars) == 0 {
+			e.st.branch(smtImp(e.guardCond(), d))
+		}
+	}
 	nres := sig.Results().Len()
 	if nres == 0 {
 		return Term{Sort: "void"}
@@ -685,7 +696,6 @@ func (e *Ev) appendBuiltin(n *ast.CallExpr) Term {
 	s := e.nameTerm(e.ev(n.Args[0]), "aps")
 	var st *types.Slice
 	if s.Sort == "nil" {
-		// append(nil-typed...) : need the type from context
 		if !e.spec {
 			st = e.g().P.Info.Types[n].Type.Underlying().(*types.Slice)
 		}
@@ -699,75 +709,66 @@ func (e *Ev) appendBuiltin(n *ast.CallExpr) Term {
 	es := e.sortOf(st.Elem())
 	hname := "A$" + sanitize(es)
 	hsort := fmt.Sprintf("(Array Int (Array Int %s))", es)
-	if n.Ellipsis.IsValid() {
-		// append(s, t...) : t may overlap s (memmove semantics: read from pre-state)
-		t := e.nameTerm(e.ev(n.Args[1]), "apt")
+	// what is appended: either a list of items or the elements of a slice t (t may overlap s:
+	// Go reads the source before writing, so the model reads from the pre-state heap)
+	var items []Term
+	var t Term
+	spread := n.Ellipsis.IsValid()
+	if spread {
+		t = e.nameTerm(e.ev(n.Args[1]), "apt")
 		if t.Sort == sStr {
 			return e.errorf(n, "append(bytes, string...) unsupported")
 		}
-		h := e.elemHeap(es)
-		newLen := app("+", app("slen", s.S), app("slen", t.S))
-		inPlace := app("<=", newLen, app("scap", s.S))
-		arr := e.g().freshName("aparr")
-		e.st.declare(arr, sInt)
-		ncap := e.g().freshName("apcap")
-		e.st.declare(ncap, sInt)
-		fr := e.freshRef("ap")
-		e.define(smtEq(arr, smtIte(inPlace, app("sarr", s.S), fr)))
-		e.define(smtIte(inPlace, smtEq(ncap, app("scap", s.S)), app(">=", ncap, newLen)))
-		off := smtIte(inPlace, app("soff", s.S), "0")
-		nh := e.g().freshName(hname)
-		e.st.declare(nh, hsort)
-		// contents of the result array
-		e.define(fmt.Sprintf("(forall ((a Int)) (! (=> (not (= a %s)) (= (select %s a) (select %s a))) :pattern ((select %s a))))", arr, nh, h, nh))
-		// within the target array: prefix kept/copied, tail = t's old contents, rest unchanged (in place) / unspecified (fresh)
-		e.define(fmt.Sprintf("(forall ((i Int)) (! (=> (and (<= 0 i) (< i (slen %s))) (= (select (select %s %s) (+ %s i)) (select (select %s (sarr %s)) (+ (soff %s) i)))) :pattern ((select (select %s %s) (+ %s i)))))",
-			s.S, nh, arr, off, h, s.S, s.S, nh, arr, off))
-		e.define(fmt.Sprintf("(forall ((i Int)) (! (=> (and (<= 0 i) (< i (slen %s))) (= (select (select %s %s) (+ %s (slen %s) i)) (select (select %s (sarr %s)) (+ (soff %s) i)))) :pattern ((select (select %s %s) (+ %s (slen %s) i)))))",
-			t.S, nh, arr, off, s.S, h, t.S, t.S, nh, arr, off, s.S))
-		e.define(smtImp(inPlace, fmt.Sprintf("(forall ((j Int)) (! (=> (or (< j (soff %s)) (>= j (+ (soff %s) %s))) (= (select (select %s %s) j) (select (select %s %s) j))) :pattern ((select (select %s %s) j))))",
-			s.S, s.S, newLen, nh, arr, h, arr, nh, arr)))
-		e.st.heaps[hname] = Term{S: nh, Sort: hsort}
-		e.u.noteWrite(hname)
-		return e.nameTerm(Term{S: fmt.Sprintf("(mkSlice %s %s %s %s)", arr, off, newLen, ncap), Sort: sSlice, T: s.T}, "apr")
-	}
-	var items []Term
-	for _, a := range n.Args[1:] {
-		items = append(items, e.toType(e.ev(a), st.Elem(), n))
-	}
-	k := len(items)
-	if k == 0 {
-		return s
+	} else {
+		for _, a := range n.Args[1:] {
+			items = append(items, e.toType(e.ev(a), st.Elem(), n))
+		}
+		if len(items) == 0 {
+			return s
+		}
 	}
 	h := e.elemHeap(es)
-	newLen := app("+", app("slen", s.S), fmt.Sprint(k))
-	inPlace := app("<=", newLen, app("scap", s.S))
-	arr := e.g().freshName("aparr")
-	e.st.declare(arr, sInt)
-	ncap := e.g().freshName("apcap")
-	e.st.declare(ncap, sInt)
-	fr := e.freshRef("ap")
-	e.define(smtEq(arr, smtIte(inPlace, app("sarr", s.S), fr)))
-	e.define(smtIte(inPlace, smtEq(ncap, app("scap", s.S)), app(">=", ncap, newLen)))
-	off := smtIte(inPlace, app("soff", s.S), "0")
-	// in place: store items after len. fresh: copy prefix then items.
-	inl := app("select", h, app("sarr", s.S))
-	for i, v := range items {
-		inl = app("store", inl, app("+", app("soff", s.S), app("slen", s.S), fmt.Sprint(i)), v.S)
+	slen, soff, sarr, scap := app("slen", s.S), app("soff", s.S), app("sarr", s.S), app("scap", s.S)
+	k := fmt.Sprint(len(items))
+	if spread {
+		k = app("slen", t.S)
 	}
+	newLen := app("+", slen, k)
+	inPlace := e.g().freshName("apinplace")
+	e.st.declare(inPlace, sBool)
+	e.define(smtEq(inPlace, app("<=", newLen, scap)))
+	rarr := e.g().freshName("aparr")
+	e.st.declare(rarr, sInt)
+	roff := e.g().freshName("apoff")
+	e.st.declare(roff, sInt)
+	rcap := e.g().freshName("apcap")
+	e.st.declare(rcap, sInt)
+	fr := e.freshRef("ap")
+	e.define(smtEq(rarr, smtIte(inPlace, sarr, fr)))
+	e.define(smtEq(roff, smtIte(inPlace, soff, "0")))
+	e.define(smtIte(inPlace, smtEq(rcap, scap), app(">=", rcap, newLen)))
 	nh := e.g().freshName(hname)
 	e.st.declare(nh, hsort)
-	e.define(smtImp(inPlace, smtEq(nh, app("store", h, app("sarr", s.S), inl))))
-	notIn := smtNot(inPlace)
-	e.define(smtImp(notIn, fmt.Sprintf("(forall ((a Int)) (! (=> (not (= a %s)) (= (select %s a) (select %s a))) :pattern ((select %s a))))", arr, nh, h, nh)))
-	e.define(smtImp(notIn, fmt.Sprintf("(forall ((i Int)) (! (=> (and (<= 0 i) (< i (slen %s))) (= (select (select %s %s) i) (select (select %s (sarr %s)) (+ (soff %s) i)))) :pattern ((select (select %s %s) i))))",
-		s.S, nh, arr, h, s.S, s.S, nh, arr)))
-	for i, v := range items {
-		e.define(smtImp(notIn, smtEq(app("select", app("select", nh, arr), app("+", app("slen", s.S), fmt.Sprint(i))), v.S)))
+	// other arrays untouched
+	e.define(fmt.Sprintf("(forall ((a Int)) (! (=> (not (= a %s)) (= (select %s a) (select %s a))) :pattern ((select %s a))))", rarr, nh, h, nh))
+	// the old elements are where they were (in place) or copied (reallocated)
+	e.define(fmt.Sprintf("(forall ((p Int)) (! (=> (and (<= %s p) (< p (+ %s %s))) (= (select (select %s %s) p) (select (select %s %s) (+ %s (- p %s))))) :pattern ((select (select %s %s) p))))",
+		roff, roff, slen, nh, rarr, h, sarr, soff, roff, nh, rarr))
+	// the appended elements
+	if spread {
+		e.define(fmt.Sprintf("(forall ((p Int)) (! (=> (and (<= (+ %s %s) p) (< p (+ %s %s %s))) (= (select (select %s %s) p) (select (select %s (sarr %s)) (+ (soff %s) (- p (+ %s %s)))))) :pattern ((select (select %s %s) p))))",
+			roff, slen, roff, slen, k, nh, rarr, h, t.S, t.S, roff, slen, nh, rarr))
+	} else {
+		for i, v := range items {
+			e.define(smtEq(app("select", app("select", nh, rarr), app("+", roff, slen, fmt.Sprint(i))), v.S))
+		}
 	}
+	// in place: the rest of the array is untouched
+	e.define(smtImp(inPlace, fmt.Sprintf("(forall ((p Int)) (! (=> (or (< p %s) (>= p (+ %s %s))) (= (select (select %s %s) p) (select (select %s %s) p))) :pattern ((select (select %s %s) p))))",
+		soff, soff, newLen, nh, sarr, h, sarr, nh, sarr)))
 	e.st.heaps[hname] = Term{S: nh, Sort: hsort}
 	e.u.noteWrite(hname)
-	return e.nameTerm(Term{S: fmt.Sprintf("(mkSlice %s %s %s %s)", arr, off, newLen, ncap), Sort: sSlice, T: s.T}, "apr")
+	return Term{S: fmt.Sprintf("(mkSlice %s %s %s %s)", rarr, roff, newLen, rcap), Sort: sSlice, T: s.T}
 }
 
 func (e *Ev) copyBuiltin(n *ast.CallExpr) Term {
@@ -880,6 +881,18 @@ func (e *Ev) modItem(item string, ce *Ev) (name, sort, ref string, ok bool) {
 
 // havocItem havocs what a modifies item allows to change.
 func (e *Ev) havocItem(item string, ce *Ev) {
+	if strings.HasPrefix(item, "allbut(") && strings.HasSuffix(item, ")") {
+		keep := map[string]bool{}
+		for _, k := range strings.Split(item[7:len(item)-1], ",") {
+			keep[strings.TrimSpace(k)] = true
+		}
+		for _, k := range sortedHeapNames(e.st.heaps) {
+			if !keep[k] && !strings.HasPrefix(k, "G$") {
+				e.havocHeap(k)
+			}
+		}
+		return
+	}
 	name, sort, ref, ok := e.modItem(item, ce)
 	if !ok {
 		return
